@@ -119,6 +119,8 @@ type Node struct {
 	Req      *TestSpec // Required(opts...) ; for pointers: NotNil(opts...)
 	Def      *Leaf     // primitives
 	DefSlice []Leaf    // slices: Default([]T{...}); nil = none
+	PtrCo     bool     // pointer nodes: the pointed-to primitive's coercer is installed through the pointer schema (WithCoercer(f)(Ptr(...)))
+	CoList    []Leaf   // slice nodes with Coercer "const": the elements the custom slice coercer returns
 	GlobalCo  bool     // Coercer/CoerceTo describe the global conf.Coercers override in effect, not a WithCoercer option
 	ExtraStrs []string // further strings the oracle tables must cover (builder chains: every Default/Catch value)
 	HasDef   bool
